@@ -40,7 +40,7 @@ KIND_TYPE = {"list": 11, "sexp": 12, "struct": 13}
 # ---------------------------------------------------------------------------
 def build_iongo():
     import vlib as _v
-    rc, out = sh("go build %s -o %s ./cmd/ion-go" % (_v.COVER_FLAGS if _v.cover_mode() else "", IONGO), cwd=REPO, env=GOENV, timeout=1200)
+    rc, out = sh("go build %s -o %s ./cmd/ion-go" % (_v.COVER_FLAGS_CLI if _v.cover_mode() else "", IONGO), cwd=REPO, env=GOENV, timeout=1200)
     return rc == 0, out
 
 
